@@ -13,6 +13,8 @@ import (
 	"time"
 )
 
+var slowLog = os.Getenv("GOSE_SLOWLOG") != ""
+
 type Result int
 
 const (
@@ -46,10 +48,10 @@ type Solver struct {
 func NewSolver(kind string, timeoutMs int) (*Solver, error) {
 	var cmd *exec.Cmd
 	switch kind {
-	case "", "z3":
-		kind = "z3"
+	case "z3":
 		cmd = exec.Command("/usr/bin/z3", "-in", "-smt2")
-	case "z3-new":
+	case "", "z3-new":
+		kind = "z3-new"
 		cmd = exec.Command("z3-new", "-in", "-smt2")
 	case "cvc5":
 		cmd = exec.Command("cvc5", "--incremental", "--lang=smt2", "--produce-models", fmt.Sprintf("--tlimit-per=%d", timeoutMs))
@@ -293,6 +295,27 @@ func (s *Solver) Check() Result {
 	if res == Unknown {
 		s.Unknown++
 	}
+	if slowLog && time.Since(t0) > 2*time.Second {
+		last := ""
+		if lv := s.mirror[len(s.mirror)-1]; len(lv) > 0 {
+			last = lv[len(lv)-1]
+		}
+		n := 0
+		for _, lv := range s.mirror {
+			n += len(lv)
+		}
+		fmt.Fprintf(os.Stderr, "gose: slow query %.1fs -> %v (%d mirrored lines) last: %s\n", time.Since(t0).Seconds(), res, n, last)
+		if f, err := os.CreateTemp("", "gose_slow_*.smt2"); err == nil {
+			for _, lv := range s.mirror {
+				for _, l := range lv {
+					fmt.Fprintln(f, l)
+				}
+			}
+			fmt.Fprintln(f, "(check-sat)")
+			f.Close()
+			fmt.Fprintf(os.Stderr, "gose: dumped to %s\n", f.Name())
+		}
+	}
 	return res
 }
 
@@ -333,7 +356,11 @@ func (s *Solver) CheckWithFallback(st *Store, extra *Term, timeoutMs int) Result
 	f.WriteString(b.String())
 	f.Close()
 	secs := timeoutMs/1000 + 1
-	for _, alt := range [][]string{{"z3-new", "-smt2", fmt.Sprintf("-T:%d", secs), f.Name()}, {"cvc5", "--lang=smt2", fmt.Sprintf("--tlimit=%d", timeoutMs), f.Name()}, {"/usr/bin/z3", "-smt2", fmt.Sprintf("-T:%d", 2*secs), f.Name()}} {
+	first := []string{"/usr/bin/z3", "-smt2", fmt.Sprintf("-T:%d", secs), f.Name()}
+	if s.Kind == "z3" {
+		first[0] = "z3-new"
+	}
+	for _, alt := range [][]string{first, {"cvc5", "--lang=smt2", fmt.Sprintf("--tlimit=%d", timeoutMs), f.Name()}} {
 		out, _ := exec.Command(alt[0], alt[1:]...).Output()
 		txt := string(out)
 		if strings.Contains(txt, "(error") {
